@@ -87,8 +87,25 @@ vt_proof! { unwind = 4; fn c23_page_and_wal_headers() {
     assert!(e.is_err(), "role=short_header_is_an_error");
 }}
 
-// @vt prop=C23 tier=quick bound="catalog constraint decoder on arbitrary input of 0..=9 bytes at position 0: every constraint tag (NOT NULL, PK, UNIQUE, FOREIGN KEY with names and the optional 2-byte action trailer, CHECK, AUTO_INCREMENT, unknown tags)" outside="longer inputs; positions > 0; the rest of the catalog file" timeout=1800 mem=16
+// @vt prop=C23 tier=quick bound="catalog constraint decoder on arbitrary input of 0..=7 bytes at position 0: every constraint tag (NOT NULL, PK, UNIQUE, FOREIGN KEY with names and the optional 2-byte action trailer, CHECK, AUTO_INCREMENT, unknown tags)" outside="longer inputs (thorough: 9 bytes); positions > 0; the rest of the catalog file" timeout=1800 mem=16
 vt_proof! { unwind = 12; fn c23_catalog_constraint_decoder() {
+    use turdb::schema::persistence::verif_hooks::deserialize_constraint;
+    let mut data: [u8; 7] = kani::any();
+    let n: usize = kani::any(); kani::assume(n <= 7);
+    let t = data[0];
+    macro_rules! go { () => {{
+        let r = core::mem::ManuallyDrop::new(deserialize_constraint(&data[..n], 0));
+        if let Ok((_, used)) = &*r { assert!(*used <= n, "role=constraint_decoder_consumes_within_input"); kani::cover!(*used == n && n == 7, "w:whole_input_consumed"); }
+    }}; }
+    // concrete tag per branch (the FOREIGN KEY / CHECK arms allocate strings of the decoded lengths)
+    if t == 0 { data[0] = 0; go!() } else if t == 1 { data[0] = 1; go!() } else if t == 2 { data[0] = 2; go!() }
+    else if t == 3 { data[0] = 3; go!() } else if t == 4 { data[0] = 4; go!() } else if t == 5 { data[0] = 5; go!() }
+    else { data[0] = 9; let r = core::mem::ManuallyDrop::new(deserialize_constraint(&data[..n], 0)); assert!(r.is_err() , "role=unknown_constraint_tag_is_an_error"); }
+    kani::cover!(t == 3 && n == 6, "w:foreign_key_with_one_trailing_byte");
+}}
+
+// @vt prop=C23 tier=thorough bound="catalog constraint decoder on arbitrary input of 0..=9 bytes at position 0: every constraint tag (NOT NULL, PK, UNIQUE, FOREIGN KEY with names and the optional 2-byte action trailer, CHECK, AUTO_INCREMENT, unknown tags)" outside="longer inputs; positions > 0; the rest of the catalog file" timeout=5400 mem=30
+vt_proof! { unwind = 12; fn c23_catalog_constraint_decoder_9() {
     use turdb::schema::persistence::verif_hooks::deserialize_constraint;
     let mut data: [u8; 9] = kani::any();
     let n: usize = kani::any(); kani::assume(n <= 9);
